@@ -195,6 +195,13 @@ func handleCAP(c *Client, e Event) {
 	if len(e.Params) == 3 && e.Params[1] == CAP_ACK {
 		enabled := strings.Split(e.Last(), " ")
 		for _, cap := range enabled {
+			// A name prefixed with "-" acknowledges that the capability has been
+			// disabled, see https://ircv3.net/specs/extensions/capability-negotiation
+			if strings.HasPrefix(cap, "-") {
+				delete(c.state.enabledCap, cap[1:])
+				continue
+			}
+
 			if val, ok := c.state.tmpCap[cap]; ok {
 				c.state.enabledCap[cap] = val
 			} else {
